@@ -838,3 +838,146 @@ def c11_k(ctx):
     ctx.check(ok, gr, 'cost gradient = derivative of the cost value', 'scale * gradient(x)',
               'CostFunction.evaluate_gradient is not the derivative of CostFunction.evaluate '
               '(different scale factors)', fn=gr, node=rg[0])
+
+
+@obligation('C11-l', 'T5 T14', 'evidence bookkeeping: n_evidence = precomputed + batch_size per '
+            'consumed batch; simulation budget and acquisition index are the stated linear forms',
+            floor=6,
+            necessary='a count that drifts from the rows actually fed to the surrogate stops the '
+                      'optimisation early or late; a shifted acquisition index takes prior draws '
+                      'for acquisitions (or the reverse)')
+def c11_l(ctx):
+    from ..ratfun import Rat, Unsupported
+    bo = ctx.cls(BO)
+    init = ctx.own_method(bo, '__init__')
+    exi = ctx.ex(init)
+    # precomputed evidence: fed once, in the surrogate's column order, and counted by its length
+    ups = ctx.calls(init, 'self.target_model.update(*_)')
+    okp = False
+    pre_len = None
+    for c in ups:
+        a = [exi.term(x) for x in c.args]
+        m = match(a[0], pattern('batch_to_arr2d(_p, self.target_model.parameter_names)')) \
+            if a else None
+        tn = [exi.term(s_.value) for (s_, t_, k_) in ctx.stores(init, 'self.target_name')
+              if k_ == 'assign']
+        if m is not None and len(a) > 1 and a[1][0] == 'sub' and a[1][1] == m['p'] and \
+                tn and a[1][2] == tn[0]:
+            okp = True
+            pre_len = a[0]
+    ctx.check(okp, init, 'precomputed evidence fed as (parameters, target) of the same dict',
+              'target_model.update(batch_to_arr2d(pre, names), pre[target])',
+              'the precomputed evidence is not fed as the parameter columns and target of one '
+              'dict', fn=init, node=ups[0] if ups else init.node)
+    st = [s for (s, t, k) in ctx.stores(init, "self.state['n_evidence']") if k == 'assign']
+    fld = [s for (s, t, k) in ctx.stores(init, 'self.n_precomputed_evidence') if k == 'assign']
+    okc = False
+    if st and fld and pre_len is not None:
+        okc = exi.term(st[-1].value) == pattern_term('self.n_precomputed_evidence') and \
+            ctx.must_precede(init, fld, st[-1])
+        v = exi.term(fld[-1].value)
+        alts = v[1] if v[0] == 'phi' else (v,)
+        okc = okc and any(match(a, pattern('len(_x)')) is not None and
+                          match(a, pattern('len(_x)'))['x'] == pre_len for a in alts) and \
+            any(a == ('const', 0) for a in alts)
+    ctx.check(okc, init, 'count starts at the number of precomputed rows (0 without)',
+              "state['n_evidence'] = len(precomputed rows) | 0",
+              'the evidence count does not start at the number of precomputed rows', fn=init,
+              node=st[-1] if st else init.node)
+    # one batch_size per consumed batch
+    up = ctx.own_method(bo, 'update')
+    exu = ctx.ex(up)
+    incs = [s for (s, t, k) in ctx.stores(up, "self.state['n_evidence']")]
+    oki = len(incs) == 1 and isinstance(incs[0], ast.AugAssign) and \
+        isinstance(incs[0].op, ast.Add) and \
+        exu.term(incs[0].value) == pattern_term('self.batch_size') and \
+        cfg_of(up).must_pass([ctx.node(up, incs[0])])
+    ctx.check(oki, up, 'count grows by batch_size once per consumed batch',
+              "state['n_evidence'] += self.batch_size",
+              'update() does not add exactly batch_size to the evidence count on every path',
+              fn=up, node=incs[0] if incs else up.node)
+    # linear forms
+    from .. import symdiff as sd
+    alg = sd.Algebra()
+
+    def leaf(t):
+        if t[0] == 'attr' and t[1] in (('param', 'self'), ('name', 'self')):
+            return Rat.sym(t[2])
+        if t[0] in ('param', 'name'):
+            return Rat.sym(t[1])
+        return None
+
+    def to_rat(t, lf):
+        return sd.convert(t, alg, lf)
+    so = ctx.own_method(bo, 'set_objective')
+    exs = ctx.ex(so)
+    sim = [s for (s, t, k) in ctx.stores(so, "self.objective['n_sim']") if k == 'assign']
+    nev = [s for (s, t, k) in ctx.stores(so, "self.objective['n_evidence']") if k == 'assign']
+    oks = False
+    if sim and nev:
+        try:
+            a = to_rat(exs.raw(sim[0].value), leaf)
+            oks = a.same(Rat.sym('n_evidence') - Rat.sym('n_precomputed_evidence'))
+        except Unsupported:
+            oks = False
+    ctx.check(oks, so, 'simulation budget = requested evidence - precomputed evidence',
+              "objective['n_sim'] = n_evidence - n_precomputed_evidence",
+              'the simulation budget is not the requested evidence minus the precomputed rows',
+              fn=so, node=sim[0] if sim else so.node)
+    gi = ctx.own_method(bo, '_get_acquisition_index')
+    exg = ctx.ex(gi)
+    rr = returns(gi)
+    okg = False
+    if len(rr) == 1:
+        t = exg.term(rr[0].value)
+        if t[0] == 'binop' and t[1] == '//':
+            try:
+                num = to_rat(t[2], leaf)
+                den = to_rat(t[3], leaf)
+                b, bi = Rat.sym('batch_size'), Rat.sym('batch_index')
+                okg = num.same(b * bi - (Rat.sym('n_initial_evidence') -
+                                         Rat.sym('n_precomputed_evidence'))) and \
+                    den.same(b * Rat.sym('batches_per_acquisition'))
+            except Unsupported:
+                okg = False
+    ctx.check(okg, gi, 'acquisition index',
+              '(batch_size*batch_index - (n_initial - n_precomputed)) // (batch_size*'
+              'batches_per_acquisition)',
+              'the acquisition index is not floor((first simulation index of the batch - initial '
+              'simulations) / acquisition batch size)', fn=gi, node=rr[0] if rr else gi.node)
+    # the GP is (re)optimised once the initial evidence is in and the interval has passed
+    sh = ctx.own_method(bo, '_should_optimize')
+    exh = ctx.ex(sh)
+    rr = returns(sh)
+    okh = False
+    if len(rr) == 1:
+        t = exh.term(rr[0].value)
+        if t[0] == 'bool' and t[1] == 'and' and len(t[2]) == 2:
+            cur = pattern('self.target_model.n_evidence + self.batch_size')
+            got = set()
+            for x in t[2]:
+                m1 = match(x, pattern('self.n_initial_evidence <= _c'))
+                m2 = match(x, pattern("self.state['last_GP_update'] + self.update_interval <= _c"))
+                if m1 is not None and match(m1['c'], cur) is not None:
+                    got.add('initial')
+                if m2 is not None and match(m2['c'], cur) is not None:
+                    got.add('interval')
+            okh = got == {'initial', 'interval'}
+    ctx.check(okh, sh, 'optimise when the initial evidence is complete and the interval passed',
+              'current >= n_initial_evidence and current >= last_GP_update + update_interval', '',
+              fn=sh, node=rr[0] if rr else sh.node)
+    # the result reports the surrogate's evidence under the surrogate's column names
+    er = ctx.own_method(bo, 'extract_result')
+    exe = ctx.ex(er)
+    outs = [n for n in own_nodes(er.node) if isinstance(n, ast.Assign) and
+            match(exe.term(n.value), pattern(
+                'arr2d_to_batch(self.target_model.X, self.target_model.parameter_names)'))
+            is not None]
+    ys = [s for s in own_nodes(er.node) if isinstance(s, ast.Assign) and
+          isinstance(s.targets[0], ast.Subscript) and
+          exe.term(s.targets[0].slice) == pattern_term('self.target_name') and
+          exe.term(s.value) == pattern_term('self.target_model.Y')]
+    ctx.check(bool(outs) and bool(ys), er, 'result outputs = the surrogate\'s evidence',
+              'outputs = arr2d_to_batch(X, names); outputs[target] = Y',
+              'extract_result does not report (X by the surrogate\'s names, Y) of the surrogate',
+              fn=er, node=outs[0] if outs else er.node)
